@@ -36,6 +36,9 @@ def run(rep, tier):
     traversal_tables(rep, F)
     from . import dims
     dims.run(rep, F, "R19.10")      # is_empty / dimensions: 'None exactly when there are no coordinates' rests on them
+    from . import c01 as _c01
+    from ..report import Alias as _Alias
+    _c01.dimension_tables(_Alias(rep, "R19.10"), F)      # the container folds (dimensions / boundary_dimensions / is_closed over the members; C01 R1.6)
     lines_rule(rep, F)
     map_rule(rep, F)
     error_discipline(rep, F)
